@@ -20,6 +20,9 @@ P['C11'] = dict(cat='other', tech='accessor inventory by signature shape + per-a
 P['C14'] = dict(cat='other', tech='effect-set (purity), source-inventory (determinism), write-site classification with path-sensitive width evaluation (definedness), constructor definite-initialisation (custom libTooling checker)',
    text='Partial claim: decides the structural necessary conditions - save call graph is effect-free on anything that outlives the call, uses no nondeterministic source, every write(ptr,n) emits bytes of an initialised object at least n wide or exactly a string\'s characters, every constructor initialises every scalar member. Does not observe byte identity.',
    note='Assumes vector elements are initialised, written scalars have no padding, compiler enforces const. ' + TB, ref='4/C14')
+P['C13'] = dict(cat='other', tech='new/delete pairing, buffer-contract polynomials, write-source classification, dangling-return and ownership rules, index-site inventory with guard idioms (custom libTooling checker)',
+   text='Partial claim: decides necessary structural conditions of memory safety over all functions (allocation/deallocation form, buffer contracts at every caller, every index site guarded / invariant-justified / listed, no dangling returns, relocation-stable element classes). Does not decide heap safety of whole histories.',
+   note='Allocation failure excluded; vector reallocation moves nothrow-movable elements. ' + TB, ref='4/C13')
 NA = {
  'C19': 'compares compiled artefacts across optimisation levels / link kinds; not decidable from source without running the builds (DESIGN 4/C19)',
 }
